@@ -43,4 +43,13 @@ def run(ctx):
     # 6. the user-facing proof-of-possession entry points stay on the POP-purpose tag (a proof of possession made
     #    through the signing path would verify as an ordinary signature over the key bytes)
     K.check_pop_chain(ctx, P, rule="E5.pop-chain")
+    # 7. "proofs of knowledge and ciphertexts bound to one scheme are rejected under another": every entry point that opens
+    #    or checks a ciphertext / proof selects its tag by the object's own scheme label, for each of the three schemes
+    #    (a path that stops looking at the label accepts a relabelled object) - the rules of C10 / C11 / C12 / C13
+    from .c18 import _Sub
+    from . import c10, c11, c12, c13
+
+    sub = _Sub(ctx, ("E2.tag-by-scheme", "E2.diagonal", "E2-A.dispatch", "E2.dispatch"))
+    for m_ in (c10, c11, c12, c13):
+        m_.run(sub)
     ctx.assume("hash-to-curve with distinct DSTs behaves as independent random oracles (cryptographic assumption)")
